@@ -270,6 +270,18 @@ chk("C20",
     floors={"quick": {"executions": 10000, "judged_below_limit": 3000, "judged_oversized": 1500, "judged_endless": 300}},
     )
 
+chk("C05",
+    level="fault_enumeration",
+    technique="end-to-end runtime monitor over real net/http on loopback TCP: sse.Server{Joe+replayer} behind http.Server, sse.Client through http.Transport with a client-side net.Conn wrapper that closes abruptly after a byte budget or on command, plus server-side handler returns; online exactly-next oracle at the client callback, Last-Event-Id check at the server, bounded-progress (step count) check after faults stop; race detector on",
+    level_text="(A) the reconnection response (headers + replayed events) is cut after every 3rd (thorough: every) byte offset 0..420 for two replayer/ID-mode combinations; (B) seeded sequences of 1-6 faults: abrupt close after N more response bytes, abrupt close while idle in the caught-up steady state (reconnect with the newest ID), close with a byte budget on the next connection (cuts inside headers, inside an event, between events), handler return after the stream started, with publishes racing reconnections, hostile multi-line payloads, event types, all four replayer x ID-mode combinations and optional microsecond delays at Joe's yield points. Every event reaching the client callback must be exactly the next published one (ID, type, data); each request's Last-Event-Id must equal the client's last dispatched ID; once faults stop the final event must arrive within 3 fault-free subscriptions; Connect must not return before its context is cancelled; the process must survive.",
+    level_note="Runs in real time (the only check that does); the verdict never depends on elapsed time: a 40 s wall-clock watchdog per scenario yields INCONCLUSIVE. Cuts are applied only after the client received its first event, and handler returns only on sessions that already sent something (both as the property states).",
+    rule="cases = offset sweep + seeded fault sequences; non-trivial = the client made at least 2 connections (a reconnection happened); distinct = distinct script",
+    assumptions=["loopback TCP available", "replayer large enough for what is published while the client is away (capacity 512, TTL 1 h)"],
+    nbatch={"quick": 16, "thorough": 16},
+    timeout_s={"quick": 900, "thorough": 5400},
+    floors={"quick": {"runs": 2500, "connections_made": 8000, "cuts_fired": 5000, "events_checked_online": 30000}},
+    )
+
 not_built = {
 }
 
